@@ -190,7 +190,7 @@ func Run(cfg Config, tape *Tape, root func()) Result {
 	// Wait for the run to end; watchdog against real blocking.
 	var out Outcome
 	last := -1
-	tick := time.NewTicker(30 * time.Second)
+	tick := time.NewTicker(120 * time.Second)
 	defer tick.Stop()
 wait:
 	for {
@@ -199,7 +199,7 @@ wait:
 			break wait
 		case <-tick.C:
 			if w.steps == last {
-				fmt.Fprintf(os.Stderr, "verifsim: watchdog: no scheduling progress for 30s (step %d); real block or endless computation\n", w.steps)
+				fmt.Fprintf(os.Stderr, "verifsim: watchdog: no scheduling progress for 120s (step %d); real block or endless computation\n", w.steps)
 				buf := make([]byte, 1<<20)
 				n := runtime.Stack(buf, true)
 				os.Stderr.Write(buf[:n])
